@@ -82,7 +82,7 @@ def canon(exec_lines):
     return '\n'.join(out)
 
 
-def run_net(prop, tier, seed, profiles, rule, assumptions, models=(), level='model_checking', dlimpl=(), satimpl=None):
+def run_net(prop, tier, seed, profiles, rule, assumptions, models=(), level='model_checking', dlimpl=(), satimpl=None, lraimpl=None):
     """profiles: list of (profile, executions_quick, executions_thorough, max_ops)"""
     ev = Evidence(prop, tier, seed, level)
     ev.cov['rule'] = rule
@@ -142,6 +142,10 @@ def run_net(prop, tier, seed, profiles, rule, assumptions, models=(), level='mod
         if satimpl and not ev.violations:
             import satreplay
             satreplay.run(ev, prop, tier, satimpl[0] if tier == 'quick' else satimpl[1])
+        # every transition (between abstract states) of the implementation-shaped model of the simplex, replayed on the library
+        if lraimpl and not ev.violations:
+            import lrareplay
+            lrareplay.run(ev, prop, tier, lraimpl[0] if tier == 'quick' else lraimpl[1])
         ev.cov['distinct_nontrivial'] = len(distinct)
         ev.cov['executions_dropped_wide_numbers'] = dropped
     finally:
